@@ -341,7 +341,7 @@ def emit_reads(p, rng, v, numrecs, coll, nprocs, tagset, written=None):
         p.all('barrier')
 
 
-def gen_rw_program(rng, path, nprocs, step0=0, hints='-', fill=None, reopen=True, fmt=None, rd=None, enddef='enddef', dump=True):
+def gen_rw_program(rng, path, nprocs, step0=0, hints='-', fill=None, reopen=True, fmt=None, rd=None, enddef='enddef', dump=True, norewrite=False):
     """C01-style program: define, several write phases (collective and independent, every form, split over
     the ranks), sync, read phases (every form), close/reopen, read again.
     `rng` drives the LOGICAL program (schema, regions, values, modes); `rd` (default: rng) drives the
@@ -365,6 +365,7 @@ def gen_rw_program(rng, path, nprocs, step0=0, hints='-', fill=None, reopen=True
         coll = rng.chance(1, 2)
         if not coll:
             p.all('begin_indep')
+        phase_cells = {}
         for _ in range(rng.range(1, 3)):
             v = rng.choice(vars_)
             if v.isrec:
@@ -378,6 +379,11 @@ def gen_rw_program(rng, path, nprocs, step0=0, hints='-', fill=None, reopen=True
             cellvals = dict(zip(cells, vs.take(len(cells))))
             if not v.dims and coll:
                 continue
+            if norewrite:
+                # burst-buffer limitation (documented): no element written twice between two flushes
+                if phase_cells.setdefault(v.name, set()) & set(cells):
+                    continue
+                phase_cells[v.name].update(cells)
             parts = split_region(rd, st, ct, sd, nprocs) if v.dims else [((st, ct, sd) if r == 0 else None) for r in range(nprocs)]
             emit_put(p, rd, v, mt, coll, parts, cellvals, p.tags)
             written.setdefault(v.name, set()).update(cells)
